@@ -813,6 +813,8 @@ class Interp:
         if isinstance(e.op, ast.UAdd):
             return v
         if isinstance(e.op, ast.Invert):
+            if hasattr(v, "fvc_invert"):
+                return v.fvc_invert(self)
             if isinstance(v, NDArr) and v.dtype == "bool":
                 return npm.unary(sym.b_not, v, "bool")
             if isinstance(v, bool) or sym.is_symbool(v):
